@@ -90,7 +90,7 @@ def build(tier, seed, prop, only=None, with_primitives=True, sample=None):
             # measured to exceed the per-harness time/memory budget on the unchanged tree: not run, reported as not decided
             excluded.append(u["hname"])
             continue
-        if c is None and not changed:
+        if c is None and not changed and os.environ.get("VERIF_INCLUDE_UNMEASURED") != "1":
             # never measured on the unchanged tree: not run (so that the unchanged tree cannot end undecided), listed
             excluded.append(u["hname"] + " (unmeasured)")
             continue
